@@ -25,13 +25,19 @@ def subst(expr, env):
     if not env:
         return expr
 
+    from .model import astcopy
+    depth = [0]
+
     class T(ast.NodeTransformer):
         def visit_Name(self, n):
-            if isinstance(n.ctx, ast.Load) and n.id in env:
-                return self.visit(env[n.id])
+            if isinstance(n.ctx, ast.Load) and n.id in env and depth[0] < 6:
+                depth[0] += 1
+                try:
+                    return self.visit(astcopy(env[n.id]))
+                finally:
+                    depth[0] -= 1
             return n
-    import copy
-    return T().visit(copy.deepcopy(expr))
+    return T().visit(astcopy(expr))
 
 
 def bind_call(call, callee):
@@ -183,7 +189,7 @@ def local_aliases(func):
             return chainlike(e.value)
         if isinstance(e, ast.Subscript) and not isinstance(e.slice, ast.Slice):
             return chainlike(e.value) and isinstance(e.slice, (ast.Name, ast.Constant, ast.BinOp, ast.Attribute, ast.Call))
-        if isinstance(e, ast.Call) and call_name(e) == 'len' and len(e.args) == 1 and isinstance(e.func, ast.Name):
+        if isinstance(e, ast.Call) and call_name(e) in ('len', 'ord') and len(e.args) == 1 and isinstance(e.func, ast.Name):
             return chainlike(e.args[0])
         if isinstance(e, ast.Call) and call_name(e) == 'setdefault' and isinstance(e.func, ast.Attribute):
             return chainlike(e.func.value)
